@@ -461,6 +461,17 @@ def extract_loopfn(repo, ent):
     else:
         f = extract_entity(repo, dict(ent, kind='func'))
     text = f['text']
+    for rf in ([] if ent.get('_text') is not None else ent.get('rangefor', [])):
+        # desugar  for (const auto& VAR : EXPR) STMT  as ISO C++11 [stmt.ranged] defines it; STMT is located with
+        # the statement scanner, so the rewrite does not depend on the shape of the body
+        m = re.search(r'for \(const auto& %s : ([^\n]*?)\)\s*\n' % re.escape(rf['var']), text)
+        if not m or len(re.findall(r'for \(const auto& %s : ' % re.escape(rf['var']), text)) != 1:
+            raise ExtractError('range-for over %s not found exactly once' % rf['var'])
+        se = _statement_end(text, m.end())
+        it = 'lc_it_' + rf['var']
+        text = (text[:m.start()] + 'for (%s %s = (%s).begin(); %s != (%s).end(); ++%s)\n{ const %s %s = *%s;\n'
+                % (rf['iter_type'], it, m.group(1), it, m.group(1), it, rf['type'], rf['var'], it)
+                + text[m.end():se] + '\n}' + text[se:])
     for r in ([] if ent.get('_text') is not None else ent.get('pre_rewrites', [])):
         text, n = re.subn(r['pattern'], r['repl'], text, flags=re.M)
         if n != r['count']:
@@ -615,6 +626,7 @@ def extract_loopfn(repo, ent):
         'id': ent['id'], 'file': ent['file'], 'kind': 'loopfn', 'loop_guards': guards,
         'first_line': f['first_line'], 'last_line': f['last_line'],
         'sha256': f['sha256'], 'text': gen, 'no_line_directive': True,
+        'rangefor': ent.get('rangefor', []),
         'pre_rewrites': [{'id': r['id'], 'count': r['count'], 'pattern': r['pattern'], 'repl': r['repl'], 'why': r.get('why', '')} for r in ent.get('pre_rewrites', [])],
         'wrapped_region_header': ent.get('header'), 'unroll': ent.get('unroll'),
         'loop_assigned_locals': assigned, 'macro_prefix': P,
